@@ -326,6 +326,26 @@ func diffClass(a, b []byte, at int, s *gen.MsgSpec) string {
 	return kind
 }
 
+// c11Addrs gives two thirds of the messages further address headers (Cc, Reply-To, several To): their lines are part
+// of the bytes every render has to repeat.
+func c11Addrs(rng *mrand.Rand, s *gen.MsgSpec) {
+	if rng.Intn(3) == 0 {
+		return
+	}
+	if rng.Intn(2) == 0 {
+		s.To = append(s.To, gen.AddrSpec{Name: "Second Recipient", Addr: "second@example.net"})
+	}
+	for i := 0; i < 1+rng.Intn(2); i++ {
+		s.Cc = append(s.Cc, gen.AddrSpec{Name: gen.Pick(rng, []string{"", "Carbon Copy", "Jürgen Müller"}), Addr: fmt.Sprintf("cc%d@example.org", i)})
+	}
+	if rng.Intn(3) != 0 {
+		s.ReplyTo = &gen.AddrSpec{Name: gen.Pick(rng, []string{"", "Replies"}), Addr: "replies@example.com"}
+	}
+	if rng.Intn(4) == 0 {
+		s.Bcc = append(s.Bcc, gen.AddrSpec{Addr: "hidden@example.org"})
+	}
+}
+
 func genC11Ops(rng *mrand.Rand, s *gen.MsgSpec, n int) []string {
 	var ops []string
 	prods := producers(s)
@@ -392,6 +412,7 @@ func runC11(r *ev.Run, rep *ev.ReplayDoc) ev.Summary {
 		rng := r.Rng("c11pairs", si)
 		s := genSpec(rng, fmt.Sprintf("c11-p%d", si), "", 1+rng.Intn(2), rng.Intn(2), 1+rng.Intn(2))
 		canon8bit(&s)
+		c11Addrs(rng, &s)
 		if si%5 == 4 {
 			s.SMIME = gen.Pick(rng, []string{"rsa", "ecdsa"})
 		}
@@ -422,6 +443,7 @@ func runC11(r *ev.Run, rep *ev.ReplayDoc) ev.Summary {
 		}
 		s := genSpec(rng, fmt.Sprintf("c11-%d", i), "", np, ne, na)
 		canon8bit(&s)
+		c11Addrs(rng, &s)
 		if rng.Intn(6) == 0 {
 			// a file whose exported Enc field the caller sets to quoted-printable after attaching it
 			if len(s.Attach) > 0 {
